@@ -212,6 +212,7 @@ class C18(Check):
         precision = rng.choice(["single", "double"])
         c = self._base_config(dim, precision, rng.randrange(len(FLOWS[dim])))
         c["free_stream"] = rng.choice([None, [1.0, 0.0, 0.0][:dim], [0.7, -0.3, 0.2][:dim]])
+        c["free_stream_ramp"] = c["free_stream"] is not None and rng.random() < 0.4
         c["zone"] = rng.choice([0, 2, 2, 3, 4])  # width 1 crashes inside penalise_field_boundary (out of scope, see DESIGN)
         c["nu"] = rng.choice([1.0e-2, 3.0e-3, 5.0e-2])
         c["rho"] = rng.choice([1.0, 0.5, 2.0])
@@ -549,7 +550,7 @@ class C18(Check):
                 del c["bodies"][i]
                 c["with_forcing"] = True
                 yield c
-        for key, val in (("time0", 0.0), ("filter", None), ("free_stream", None), ("zone", 0), ("poisson", "greens"), ("vort_amp", 0.0), ("fresh_interpreter", False), ("same_process", False)):
+        for key, val in (("free_stream_ramp", False), ("time0", 0.0), ("filter", None), ("free_stream", None), ("zone", 0), ("poisson", "greens"), ("vort_amp", 0.0), ("fresh_interpreter", False), ("same_process", False)):
             if key in program and program[key] != val:
                 c = copy.deepcopy(program)
                 c[key] = val
